@@ -57,12 +57,14 @@ type PathState struct {
 	violations []Violation
 	inconcl    []string
 	noDecide   bool // setup phase: decisions forbidden
+	dom        map[*Term]bitset
+	multi      map[*Term]bool
 	assumes    int
 }
 
 func newPathState(prefix []Decision) *PathState {
 	return &PathState{prefix: prefix, pin: map[*Term]*Term{}, substMemo: map[*Term]*Term{},
-		strLens: map[string]int{}, covers: map[string]bool{}}
+		strLens: map[string]int{}, covers: map[string]bool{}, dom: map[*Term]bitset{}, multi: map[*Term]bool{}}
 }
 
 func (i *Interp) simp(t *Term) *Term {
@@ -79,6 +81,7 @@ func (i *Interp) assertPC(c *Term) {
 		return
 	}
 	i.solver.Assert(c)
+	i.domAssert(c)
 	i.pinFrom(c)
 }
 
@@ -144,14 +147,14 @@ func (i *Interp) decide(c *Term) bool {
 		panic(pathEnd{kind: "budget", msg: "decision depth exceeded"})
 	}
 	d := Decision{Cond: c}
-	r1 := i.solver.CheckWith(c)
+	r1 := i.feasible(c)
 	if r1 == Unknown {
 		ps.inconcl = append(ps.inconcl, "solver unknown on branch at "+i.where())
 	}
 	if r1 == Unsat {
 		d.Taken, d.Done = false, true
 	} else {
-		r2 := i.solver.CheckWith(i.ts.Not(c))
+		r2 := i.feasible(i.ts.Not(c))
 		if r2 == Unknown {
 			ps.inconcl = append(ps.inconcl, "solver unknown on branch at "+i.where())
 		}
@@ -333,16 +336,16 @@ func (j *Job) String() string {
 }
 
 type JobResult struct {
-	Job         *Job
-	Paths       int
-	AssumeEnds  int
-	Decisions   int
-	Violations  []Violation
-	Inconcl     []string
-	Covers      map[string]int
-	Samples     []*Witness
-	Steps       int64
-	MaxDepth    int
+	Job        *Job
+	Paths      int
+	AssumeEnds int
+	Decisions  int
+	Violations []Violation
+	Inconcl    []string
+	Covers     map[string]int
+	Samples    []*Witness
+	Steps      int64
+	MaxDepth   int
 }
 
 type pathOutcome struct {
